@@ -122,7 +122,7 @@ theorem agrees_all : ∀ v, AllSub Agrees v := by
     cases v with
     | str s =>
       simp only [rExpr] at hre
-      exact str_case c root env hr s hre
+      exact str_case c root env hr s hre hok
     | doc fs => simp [Val.isDoc] at hd
     | arr xs => simp [Val.isArr] at ha
     | _ => rfl
@@ -138,27 +138,10 @@ theorem eval_eq_spec (e d : Val) (h : exprInD e d = true) : evalExpr d e = specE
   obtain ⟨h1, h2⟩ := append_nil2 this
   exact (agrees_all e).self (Ctx.init true d) d [] (EnvRel.init d) h2 h1
 
-/-- and `find({$expr: e})` selects by `toBool` of that value -/
-theorem filter_eq_spec (e d : Val) (h : filterReasons e d = []) :
+/-- and `find({$expr: e})` selects by `toBool` of that value (missing = false) -/
+theorem filter_eq_spec (e d : Val) (h : exprInD e d = true) :
     exprFilter e d = specFilter e d := by
-  unfold filterReasons at h
-  obtain ⟨h1, h2⟩ := append_nil2 h
-  have hin : exprInD e d = true := by simp [exprInD, h1]
-  have he := eval_eq_spec e d hin
-  simp only [exprFilter, specFilter, he]
-  cases hs : specEval d e with
-  | error err => simp [Except.map]
-  | ok v =>
-    simp only [hs] at h2
-    cases v with
-    | none => simp at h2
-    | some w =>
-      simp only at h2
-      obtain ⟨h21, _⟩ := append_nil2 h2
-      have : pyFalsyButTrue (some w) = false := by
-        cases hp : pyFalsyButTrue (some w) with
-        | false => rfl
-        | true => rw [hp] at h21; simp at h21
-      simp [Except.map, truthy_eq_toBool w this]
+  rw [expr_filter_full, eval_eq_spec e d h]
+  rfl
 
 end MongoModel.Proofs.C04
